@@ -26,6 +26,11 @@ type Call struct {
 	Body   string            `json:"body,omitempty"`
 	Fault  *Fault            `json:"fault,omitempty"`
 	Reader string            `json:"reader,omitempty"`
+
+	// typed calls (typed.go): the generated client's method TOp is invoked with values made from V
+	TOp  string `json:"top,omitempty"`
+	V    uint64 `json:"v,omitempty"`
+	Edge bool   `json:"edge,omitempty"` // values outside the core domain are allowed
 }
 
 // CallRecord is everything observed about one call.
@@ -48,6 +53,9 @@ type CallRecord struct {
 	Status    int    `json:"status"`
 	BodySum   string `json:"body_sum,omitempty"`
 	BodyLen   int    `json:"body_len"`
+
+	T     *TypedRec `json:"typed,omitempty"`
+	ReqCT string    `json:"req_ct,omitempty"` // Content-Type of the request as the client sent it
 }
 
 func (r *CallRecord) fire() { r.fired.Store(true) }
